@@ -55,7 +55,7 @@ def readme_error_headings(repo):
 def run(ctx):
     b = ctx.bin
     if b is None:
-        ctx.anchor_lost('C17.anchor', 'binary crate facts')
+        ctx.anchor_lost('C17.anchor', 'binary crate facts', hard=True)
         return
     # ---------------- (1) error discipline
     rule = 'C17.error-discipline'
@@ -135,7 +135,7 @@ def run(ctx):
     for suf in ('json::from_reader', 'gambit::from_reader', 'auto::from_reader', 'json::from_str', 'gambit::from_str'):
         r, par = e1.reach(b, suf)
         if r is None:
-            ctx.anchor_lost(rule, 'instance-graph root ' + suf)
+            ctx.anchor_lost(rule, 'instance-graph root ' + suf, hard=True)
             continue
         h = e1.hits(b, par, lambda n_: e1.node_path(n_) in ('std::io::stdout', 'std::io::_print', 'std::fs::File::create') or e1.node_path(n_).startswith('serde_json::to_writer'))
         ctx.verdict(not h, rule, '%s:reader-cannot-print:%s' % (rule, suf), 'no reader function can reach io::stdout / File::create / to_writer', '', '%d instances reached, %d output functions' % (len(par), len(h)))
@@ -187,7 +187,7 @@ def run(ctx):
     rule = 'C17.readme-anchors'
     heads = readme_error_headings(ctx.repo)
     if heads is None or not heads:
-        ctx.anchor_lost(rule, 'README.md Errors section')
+        ctx.anchor_lost(rule, 'README.md Errors section', hard=True)
     else:
         slugs = {slug(h): h for h in heads}
         used = {}
